@@ -54,7 +54,7 @@ impl<'a> Minimiser<'a> {
         // 2. drop whole sections, then shrink each
         let names: Vec<String> = best.secs.keys().cloned().collect();
         for n in &names {
-            if best.secs[n].is_empty() {
+            if best.secs[n].is_empty() || best.engine == "e4" {
                 continue;
             }
             let mut c = best.clone();
@@ -73,6 +73,11 @@ impl<'a> Minimiser<'a> {
     }
 
     fn shrink_steps(&mut self, best: &mut Case) {
+        // E4's steps are not a history: they are the generator's record of what the section
+        // bytes contain (the reference of the row-boundary model) and must stay in step with them
+        if best.engine == "e4" {
+            return;
+        }
         let mut chunk = best.steps.len().max(1) / 2;
         while chunk >= 1 && !best.steps.is_empty() {
             let mut i = 0;
@@ -114,6 +119,10 @@ impl<'a> Minimiser<'a> {
     }
 
     fn shrink_bytes(&mut self, best: &mut Case, name: &str) {
+        // (see shrink_steps: E4's bytes and reference events belong together)
+        if best.engine == "e4" {
+            return;
+        }
         // chop tail (binary search on length)
         loop {
             let len = best.secs[name].len();
